@@ -385,11 +385,14 @@ static void iauth_xquery_x_reply(const char service[], const char routing[],
             srv->bad_acct++;
         iauth_kill(req, (reply[2] == ' ') ? reply + 3 : reply + 2);
         return;
-    } else if (0 == strncmp(reply, "AGAIN ", 6)) {
-        iauth_challenge(req, reply + 6);
-    } else if (0 == strncmp(reply, "MORE ", 5)) {
+    } else if (0 == strncmp(reply, "AGAIN", 5)
+               && (reply[5] == '\0' || reply[5] == ' ')) {
+        /* As for NO, the text may be missing altogether. */
+        iauth_challenge(req, (reply[5] == ' ') ? reply + 6 : reply + 5);
+    } else if (0 == strncmp(reply, "MORE", 4)
+               && (reply[4] == '\0' || reply[4] == ' ')) {
         cli->more_mask |= 1u << ii;
-        iauth_challenge(req, reply + 5);
+        iauth_challenge(req, (reply[4] == ' ') ? reply + 5 : reply + 4);
     } else {
         log_message(iauth_xquery_log, LOG_WARNING, "Unexpected XR reply: %s", reply);
         return;
